@@ -306,7 +306,11 @@ fn check_type_relation<T: TypeLookup>(
             }
             let lookup_index = self_stack.len() - *depth;
             if let Some(&stack_id) = self_stack.get(lookup_index) {
-                check_type_relation(
+                // The referenced type is compared below ITS enclosing types. The entries between it
+                // and the back-reference are set aside: with them on the stack the type would not
+                // be pushed again and its own back-references would count from the wrong entry.
+                let inner = self_stack.split_off(lookup_index);
+                let result = check_type_relation(
                     stack_id,
                     pattern_id,
                     lookup,
@@ -314,7 +318,9 @@ fn check_type_relation<T: TypeLookup>(
                     assumptions,
                     self_stack,
                     type_stack,
-                )
+                );
+                self_stack.extend(inner);
+                result
             } else {
                 true
             }
@@ -326,7 +332,8 @@ fn check_type_relation<T: TypeLookup>(
             }
             let lookup_index = type_stack.len() - *depth;
             if let Some(&stack_id) = type_stack.get(lookup_index) {
-                check_type_relation(
+                let inner = type_stack.split_off(lookup_index);
+                let result = check_type_relation(
                     self_id,
                     stack_id,
                     lookup,
@@ -334,7 +341,9 @@ fn check_type_relation<T: TypeLookup>(
                     assumptions,
                     self_stack,
                     type_stack,
-                )
+                );
+                type_stack.extend(inner);
+                result
             } else {
                 true
             }
